@@ -12,6 +12,7 @@ The oracle ("judge") runs in the runner as plain CPython code on Python ints; on
 Data model is LP64 (long = 64 bit), asserted by checks through a compiled sizeof table.
 """
 import json
+import math
 import random
 import warnings
 
@@ -629,6 +630,365 @@ def make_ovf_judge(p):
     return Judge(expect, verdict)
 
 
+# --------------------------------------------------------------------------------- C07: power operator
+def decode_num(v):
+    """JSON-able number encoding: int/float as is, ["c", re, im] complex, ["f", "hex"|"nan"|"inf"|"-inf"] float."""
+    if isinstance(v, list):
+        if v[0] == "c":
+            return complex(decode_num(v[1]), decode_num(v[2]))
+        if v[0] == "f":
+            return float.fromhex(v[1]) if v[1] not in ("nan", "inf", "-inf") else float(v[1])
+        if v[0] == "sub":
+            return IntSub(v[1])
+        if v[0] == "wc":
+            return WithComplex(decode_num(v[1]))
+        raise ValueError(v)
+    return v
+
+
+def encode_num(x):
+    if isinstance(x, complex):
+        return ["c", encode_num(x.real), encode_num(x.imag)]
+    if isinstance(x, float):
+        return ["f", "nan" if x != x else ("inf" if x == float("inf") else "-inf" if x == float("-inf") else x.hex())]
+    return x
+
+
+def _same_float(x, y, rel):
+    if x != x or y != y:
+        return x != x and y != y
+    if x == y:
+        return rel is not None or (math.copysign(1.0, x) == math.copysign(1.0, y))
+    if rel is None or x in (float("inf"), float("-inf")) or y in (float("inf"), float("-inf")):
+        return False
+    return abs(x - y) <= rel * max(abs(x), abs(y))
+
+
+def same_number(got, want, rel=None):
+    """type-exact comparison; floats by value incl. sign of zero and nan==nan (rel: relative tolerance or None)"""
+    if type(got) is not type(want):
+        return False
+    if type(want) is float:
+        return _same_float(got, want, rel)
+    if type(want) is complex:
+        if _same_float(got.real, want.real, rel) and _same_float(got.imag, want.imag, rel):
+            return True
+        if rel is None:
+            return False
+        try:
+            return abs(got - want) <= rel * abs(want)       # tolerance relative to the modulus, not per component
+        except OverflowError:
+            return False
+    return got == want
+
+
+@judge("pow")
+def make_pow_judge(p):
+    """C07: a ** b.
+
+    p: akind/bkind in {"int", "float", "obj", "complex"} (static kind of the operand in the kernel);
+       consta/constb: literal operand (encoded) or None (then taken from args in order);
+       res: "object" | "double" | "float" | "soft" | "complex" | [lo, hi] (C integer result type);
+       cpow: bool.
+    Oracle (DESIGN C07 ii/iii): object result -> CPython's operator.pow on the same Python values, exactly;
+    C double result -> CPython's float result / exception where Python also yields a float (int base with a
+    non-negative int exponent is the documented exception: Python would give an int, compared with
+    float(a) ** float(b)); NaN where the result would be complex (cpow=True row); soft complex -> CPython's
+    float or complex result; C integer result -> exact when b >= 0 and a**b fits, otherwise unspecified.
+    """
+    akind, bkind, res, cpow = p["akind"], p["bkind"], p["res"], p["cpow"]
+    consta = decode_num(p["consta"]) if p.get("consta") is not None else None
+    constb = decode_num(p["constb"]) if p.get("constb") is not None else None
+    rel = p.get("rel")
+
+    def operands(args):
+        it = iter(args)
+        a = consta if consta is not None else decode_num(next(it))
+        b = constb if constb is not None else decode_num(next(it))
+        return a, b
+
+    def pyres(a, b):
+        try:
+            return a ** b
+        except Exception as e:      # noqa
+            return Exc("!" + type(e).__name__)
+
+    def expect(args):
+        a, b = operands(args)
+        nt = False
+        try:
+            nt = (b != b) or b < 0 or b == 0 or b > 3 or a <= 0
+        except TypeError:
+            nt = True
+        if isinstance(res, list):
+            if not (type(b) is int and type(a) is int) or b < 0:
+                return SKIP, False, "excluded:int-result-negative-exponent"
+            if b > 200 and abs(a) > 1:
+                return SKIP, False, "excluded:int-result-does-not-fit"
+            v = a ** b
+            if not res[0] <= v <= res[1]:
+                return SKIP, False, "excluded:int-result-does-not-fit"
+            return v, nt, "int-result"
+        if res == "object":
+            if type(b) is int and b > 5000 and type(a) is int and abs(a) > 1:
+                return SKIP, False, "excluded:huge"
+            return pyres(a, b), nt, "object-result"
+        if res == "complex" or isinstance(a, complex) or isinstance(b, complex):
+            ca, cb = complex(a), complex(b)
+            if a == 0 or any(x != x or abs(x) == float("inf") for x in (ca.real, ca.imag, cb.real, cb.imag)):
+                return SKIP, False, "excluded:complex-special-values"      # special values of complex pow are C08's
+            r = pyres(complex(a), b)
+            if isinstance(r, Exc):
+                return SKIP, False, "excluded:complex-exception"
+            if r.real != r.real or r.imag != r.imag or abs(r.real) == float("inf") or abs(r.imag) == float("inf"):
+                return SKIP, False, "excluded:complex-nonfinite"
+            return r, nt, "complex-result"
+        # real or soft-complex C result: operands are C numbers -> Python float semantics
+        if type(a) is int and type(b) is int and b >= 0:
+            # Python would produce an int here, Cython documents a C double: compare with the C computation
+            try:
+                r = float(a) ** float(b)
+            except OverflowError:
+                return SKIP, False, "excluded:double-for-python-int-overflow"
+            return r, nt, "double-for-python-int"
+        try:
+            fa, fb = float(a), float(b)
+        except OverflowError:
+            return SKIP, False, "excluded:operand-not-a-double"
+        if cpow and res != "soft" and fa < 0 and fa != float("-inf") and fb == fb and abs(fb) != float("inf") and fb != int(fb):
+            return float("nan"), True, "real-result:nan-for-complex"      # documented: NaN if the result would be complex
+        r = pyres(fa, fb)
+        if isinstance(r, complex):
+            if res == "soft":
+                return r, True, "soft-complex:complex"
+            return float("nan"), True, "real-result:nan-for-complex"
+        if isinstance(r, Exc):
+            return r, True, "float-pow:" + r[1:]
+        if res == "float":
+            return r, nt, "float32-result"
+        return r, nt, ("soft-complex:real" if res == "soft" else "double-result")
+
+    def verdict(args, got, w):
+        tol = rel
+        if res == "float" or res == "complex":
+            tol = tol or (1e-5 if res == "float" else 1e-12)
+        if res in ("soft", "complex") and type(w) is complex and type(got) is float and w.imag == 0 and _same_float(got, w.real, 1e-12):
+            return None
+        if res == "soft" and type(w) is complex:
+            # complex pow is computed by a different formula than CPython's (exactness of complex arithmetic is C08's);
+            # a complex whose imaginary part is exactly zero (underflow) is numerically equal to the float Cython returns
+            tol = tol or 1e-12
+            if w.imag == 0 and type(got) is float and _same_float(got, w.real, tol):
+                return None
+        if isinstance(w, Exc):
+            if isinstance(got, Exc):
+                return None if got == w else "raises:%s-instead-of-%s" % (got[1:], w[1:])
+            if type(got) is float and abs(got) == float("inf"):
+                return "inf-instead-of-" + w[1:]
+            if type(got) is complex:
+                return "complex-instead-of-" + w[1:]
+            return "value-instead-of-" + w[1:]
+        if isinstance(got, Exc):
+            return "raises:" + got[1:]
+        if res == "float" and type(got) is float and type(w) is float:
+            if w != w or got != got:
+                return None if (w != w and got != got) else "wrong-value"
+            if abs(w) > 3.4e38 or (w != 0 and abs(w) < 1.2e-38):
+                return None        # outside float32's normal range: inf / 0 / denormal by design
+        if same_number(got, w, tol):
+            return None
+        if type(got) is not type(w):
+            return "result-type:%s-instead-of-%s" % (type(got).__name__, type(w).__name__)
+        if type(w) in (float, complex) and same_number(got, w, 1e-9):
+            return "last-digits-differ"
+        return "wrong-value"
+
+    return Judge(expect, verdict)
+
+
+# ------------------------------------------------------------------------------ C08: complex arithmetic
+class WithComplex:
+    def __init__(self, z):
+        self.z = z
+
+    def __complex__(self):
+        return self.z
+
+
+def _special(x):
+    return x != x or x in (float("inf"), float("-inf")) or x == 0 or abs(x) >= 1e300 or abs(x) <= 1e-300
+
+
+CPLX_OPS = {
+    "add": lambda a, b: a + b, "sub": lambda a, b: a - b, "mul": lambda a, b: a * b, "div": lambda a, b: a / b,
+    "pow": lambda a, b: a ** b, "neg": lambda a: -a, "abs": lambda a: abs(a), "eq": lambda a, b: a == b,
+    "ne": lambda a, b: a != b, "real": lambda a: a.real, "imag": lambda a: a.imag, "conj": lambda a: a.conjugate(),
+    "id": lambda a: complex(a), "bool": lambda a: bool(a),
+}
+
+
+@judge("cplx")
+def make_cplx_judge(p):
+    """C08: C double complex arithmetic vs Python complex.
+
+    p: op (key of CPLX_OPS); cdivision (bool, for div); consta/constb: literal operand (encoded) or None;
+       tol: None = exact (float.hex equality incl. sign of zero, nan == nan) | relative tolerance on the modulus;
+       finite_only: skip operands / results with non-finite components (native C99 _Complex build);
+       soft: result may be a float when the imaginary part is exactly zero (soft complex).
+    Skipped: inputs for which Python raises OverflowError or a pow ZeroDivisionError (no Python value to compare);
+    division by zero under cdivision (C semantics, unspecified).
+    """
+    op, cdiv, tol, finite_only, soft = p["op"], p.get("cdivision", False), p.get("tol"), p.get("finite_only", False), p.get("soft", False)
+    consta = decode_num(p["consta"]) if p.get("consta") is not None else None
+    constb = decode_num(p["constb"]) if p.get("constb") is not None else None
+    fn = CPLX_OPS[op]
+    nargs = fn.__code__.co_argcount
+
+    def comps(x):
+        if isinstance(x, complex):
+            return (x.real, x.imag)
+        if isinstance(x, float):
+            return (x,)
+        return ()
+
+    def expect(args):
+        it = iter(args)
+        vals = []
+        a = consta if consta is not None else decode_num(next(it))
+        vals.append(a)
+        if nargs == 2:
+            vals.append(constb if constb is not None else decode_num(next(it)))
+        cs = [c for v in vals for c in comps(v)]
+        nonfinite = any(c != c or abs(c) == float("inf") for c in cs)
+        if finite_only and nonfinite:
+            return SKIP, False, "excluded:non-finite-operand(native-complex-build)"
+        if p.get("skip_extreme") and any(c != 0 and (abs(c) >= 1e60 or abs(c) <= 1e-60) for c in cs):
+            return SKIP, False, "excluded:extreme-magnitude-operand(native-complex-build)"
+        nt = any(_special(c) for c in cs)
+        if op == "div":
+            b = vals[1]
+            if b == 0:
+                if cdiv:
+                    return SKIP, False, "excluded:cdivision-zero-divisor"
+                return ZDE, True, "zero-divisor"
+            bc = complex(b)
+            if bc.real != 0 and bc.imag != 0:
+                nt = nt or True
+        try:
+            r = fn(*vals)
+        except OverflowError:
+            return SKIP, False, "excluded:python-raises-OverflowError"
+        except ZeroDivisionError:
+            return SKIP, False, "excluded:python-pow-ZeroDivisionError"
+        if finite_only and any(c != c or abs(c) == float("inf") for c in comps(r)):
+            return SKIP, False, "excluded:non-finite-result(native-complex-build)"
+        return r, nt, "special-component" if nt else "ordinary"
+
+    skip_extreme = p.get("skip_extreme", False)
+
+    def _operands(args):
+        it = iter(args)
+        vals = [consta if consta is not None else decode_num(next(it))]
+        if nargs == 2:
+            vals.append(constb if constb is not None else decode_num(next(it)))
+        return vals
+
+    def verdict(args, got, w):
+        if isinstance(w, Exc):
+            if isinstance(got, Exc) and got == w:
+                return None
+            return ("raises:" + got[1:]) if isinstance(got, Exc) else "value-instead-of-" + w[1:]
+        if isinstance(got, Exc):
+            return "raises:" + got[1:]
+        if soft and type(w) is complex and type(got) is float:
+            got = complex(got, w.imag if w.imag == 0 else 0.0)      # soft complex collapses a zero imaginary part
+        if same_number(got, w, tol):
+            return None
+        if type(got) is not type(w):
+            return "result-type:%s-instead-of-%s" % (type(got).__name__, type(w).__name__)
+        vals = _operands(args)
+        cs = [c for v in vals for c in comps(v)]
+        cg, cw = comps(got), comps(w)
+        if op == "pow" and vals[0] == 0:
+            return "pow-zero-base"
+        if all(x == y or (x != x and y != y) for x, y in zip(cg, cw)):
+            return "zero-sign"
+        if any(c != c or abs(c) == float("inf") for c in cs):
+            return "nonfinite-operand"
+        if any(c != 0 and (abs(c) >= 1e60 or abs(c) <= 1e-60) for c in cs):
+            return "extreme-magnitude-operand"
+        if op == "pow" and isinstance(vals[0], complex) and vals[0].imag == 0 and vals[0].real < 0 \
+                and math.copysign(1.0, vals[0].imag) < 0:
+            return "branch-cut-negative-zero-imag"
+        if type(w) is complex and type(got) is complex and w.imag != 0 and got.imag != 0 and (w.imag < 0) != (got.imag < 0) \
+                and abs(w.imag) > 1e-9 * abs(w) and same_number(got, w.conjugate(), 1e-13):
+            return "conjugate"
+        if same_number(got, w, 1e-13):
+            return "last-bits-differ"
+        if any(x != x or abs(x) == float("inf") for x in cg + cw):
+            return "nonfinite-result"        # finite operands, overflowing / invalid intermediate on one side
+        return "wrong-value"
+
+    return Judge(expect, verdict)
+
+
+# ------------------------------------------------------------------------------------- C38: cython.cast
+def cast_want(target, v):
+    """C semantics of cython.cast(target, v) for an in-range value v (pure-mode type names)."""
+    if target in ("cython.int", "cython.long", "cython.short", "cython.longlong", "cython.schar", "TD_INT"):
+        return int(v)                       # C: truncation toward zero
+    if target in ("cython.double", "cython.float", "TD_DBL"):
+        return float(v)
+    if target == "cython.bint":
+        return bool(v)
+    return v
+
+
+@judge("purecast")
+def make_purecast_judge(p):
+    target = p["target"]
+
+    def expect(args):
+        v = decode_num(args[0])
+        nt = isinstance(v, float) and v != int(v)
+        return ("want", cast_want(target, v), v), bool(nt), "cast"
+
+    def verdict(args, got, w):
+        _, want, v = w
+        if isinstance(got, Exc):
+            return "raises:" + got[1:]
+        if target == "object":
+            return None if (got == want and type(got) is type(want)) else "wrong-value"
+        if type(got) is not type(want):
+            return "result-type:" + type(got).__name__
+        return None if same_number(got, want) else "wrong-value"
+    return Judge(expect, verdict)
+
+
+@judge("cdivabs")
+def make_cdivabs_judge(p):
+    """C38: cython.cdiv(a, abs(b) + 1) / cython.cmod(a, abs(b) + 1): exact C99 semantics on in-range values."""
+    idx = 0 if p["fn"] == "cdiv" else 1
+
+    def expect(args):
+        a, b = args
+        w = c_divmod(a, abs(b) + 1)[idx]
+        nt = a < 0 and a % (abs(b) + 1) != 0
+        return w, nt, "signs-differ,rem!=0" if nt else "other"
+
+    def verdict(args, got, w):
+        if isinstance(got, Exc):
+            return "raises:" + got[1:]
+        if type(got) is not int:
+            return "result-type:" + type(got).__name__
+        if got == w:
+            return None
+        a, b = args
+        q, r = divmod(a, abs(b) + 1)
+        return "python-semantics-instead-of-c" if got == (q, r)[idx] else "wrong-value"
+    return Judge(expect, verdict)
+
+
 # ----------------------------------------------------------------------------------------------- driver
 def run(M, spec_json):
     """Runner entry point: drive kernel spec["k"] of module M over spec["inputs"], judge every outcome."""
@@ -650,7 +1010,9 @@ def run(M, spec_json):
             skip += 1
             continue
         try:
-            if enc:
+            if enc == "num":
+                got = f(*[decode_num(v) for v in args])
+            elif enc:
                 with warnings.catch_warnings():
                     warnings.simplefilter("ignore")
                     got = f(*[decode_value(v) for v in args])
